@@ -298,6 +298,17 @@ func c10R4(c *Ctx) {
 			c.check(hit == nil, "deleteCreatedFiles/every-entry", c.pos(df.Pos()), "each recorded path is removed unless it no longer exists", "a recorded path can be skipped by the delete loop: stop-and-delete leaves files of this transfer behind", c.pathStr(path)...)
 		}
 	}
+	// the loop is left only when the list is exhausted (no early break that leaves recorded paths behind)
+	for _, b := range df.Blocks {
+		if b.Comment != "rangeindex.body" {
+			continue
+		}
+		exhausted := func(from, to *ssa.BasicBlock) bool {
+			return from.Comment == "rangeindex.loop" && to.Comment == "rangeindex.done"
+		}
+		hit, path := reachFromE(b, 0, isReturn, nil, exhausted)
+		c.check(hit == nil, "deleteCreatedFiles/whole-list", c.pos(df.Pos()), "the delete loop ends only when every recorded path has been visited", "the delete loop can end before the list is exhausted: stop-and-delete leaves files of this transfer behind", c.pathStr(path)...)
+	}
 	// what is reported as deleted: a path is put on the reported list only on the edge where its removal succeeded
 	for _, ci := range callsIn(df, idIs("builtin append")) {
 		if rm == nil {
@@ -792,6 +803,13 @@ func c10R9(c *Ctx) {
 			gotStop = k
 		}
 		c.check(!bad && gotResume == w.resume && gotStop == w.stop, "confirmStopTransfer/answer="+w.name, c.ipos(runs[0]), "this answer leads to exactly its action (continue / stop and keep / stop and delete)", "the answer '"+w.name+"' of the stop question leads to the wrong action")
+	}
+	// SIGINT delivered to the wrapper process itself is a plain stop (files are kept)
+	if hsf := c.Funcs["handleSignal$2"]; hsf != nil {
+		for _, ci := range callsIn(hsf, idIs("(*trzsz.TrzszFilter).StopTransferringFiles")) {
+			b, isC := constBool(ci.Common().Args[1])
+			c.check(isC && !b, "handleSignal/plain-stop", c.ipos(ci), "a SIGINT to the wrapper stops the transfer and keeps the files", "a SIGINT to the wrapper stops AND DELETES the transferred files")
+		}
 	}
 	api := c.fn("TrzszFilter.StopTransferringFiles")
 	good := false
